@@ -51,11 +51,66 @@ class PropBase:
                         lines.append(gen.rand_frame(rng, rng.choice(gen.FORMATS), rng.choice(addrs)))
                 ops += [f"case g{h}.{si}"] + gen.seg(lines) + ["dump"]
                 ops.append("adv %d" % rng.choice([500, 1500, 9500, 10500, da * 1000 - 500, da * 1000 + 500]))
-            impl, _, model = run.execute(ops, model=True)
+            ops += [f"case g{h}.shown", "dump", "render"]
+            impl, so, model = run.execute(ops, model=True)
+            if getattr(self, "shown_columns", ()):
+                if not PropBase.check_shown(self, rep, [l for l in core.split_cases(impl).get(f"g{h}.shown", [])], so, opts["groups"], ops):
+                    return
             rep.evaluations += sum(1 for o in ops if o.startswith("line")); rep.traces += 1
             rep.count("generic_corr_histories")
             only = None if self.corr_fields is None else set(self.corr_fields) | {"icao"}
             PropBase.corr(self, rep, impl, model, {"generic_history": h, "options": opts, "fields": sorted(only) if only else "all"}, ops, only=only)
+
+    # the columns of the printed table that show this property's parameters: where a property speaks of what is shown, the
+    # printed cell is compared with the row state too (the rendering itself is C14's subject)
+    shown_columns = ()
+
+    def check_shown(self, rep, dump_lines, stdout, groups, ops):
+        """the last table printed between @@RENDER markers against the row state dumped just before it, for `shown_columns`"""
+        from props import render_common as RC
+        from props.c14 import expect_cell
+        blocks = RC.renders(stdout)
+        if not blocks or len(blocks[-1]) < 2:
+            raise core.Broken("render markers missing in the implementation's stdout", stdout[-200:])
+        header, rows_txt = blocks[-1][0], blocks[-1][2:]
+        cells = {n: (p_, w_) for n, p_, w_ in RC.header_cells(header)}
+        rows = gen.parse_dump(dump_lines)
+        for t in rows_txt:
+            if len(t) < 6 or not all(c in "0123456789ABCDEF" for c in t[:6]):
+                continue
+            a = int(t[:6], 16)
+            row = rows.get(a)
+            if row is None:
+                PropBase.fail(self, rep, f"the printed table lists {a:06X}, which is not in the table", {"ops": ops})
+                return False
+            if len(t) != len(header):
+                continue                      # a value wider than its column shifts what follows (C14 says when rows line up)
+            for n in self.shown_columns:
+                if n not in cells:
+                    continue
+                p_, w_ = cells[n]
+                want, al = expect_cell(n, row)
+                got = t[p_:p_ + w_]
+                if want is None:
+                    k = {"LATITUDE": ("lat", 1e-5 * 1.01, 1), "LONGITUDE": ("lon", 1e-5 * 1.01, 1), "DIST": ("dist", 0.101, 1),
+                         "MACH": ("mach", 0.0101, 0.004), "TEMP": ("temp", 0.101, 0.25)}.get(n)
+                    if k is None or row.get(k[0]) in (None, "-"):
+                        continue
+                    try:
+                        ok = abs(float(got) - float(row[k[0]]) * k[2]) <= k[1]
+                    except ValueError:
+                        ok = False
+                    if not ok:
+                        PropBase.fail(self, rep, f"aircraft {a:06X}: column {n} shows {got!r}, the row holds {row[k[0]]} (-i {groups!r})",
+                                  {"ops": ops, "row_text": t, "header": header, "column": n})
+                        return False
+                    continue
+                exp = want.rjust(w_) if al == "r" else want.ljust(w_)
+                if got != exp:
+                    PropBase.fail(self, rep, f"aircraft {a:06X}: column {n} shows {got!r}, the row holds {exp!r} (-i {groups!r})",
+                              {"ops": ops, "row_text": t, "header": header, "column": n})
+                    return False
+        return True
 
     def panics(self, rep, impl, ctx, ops=None):
         for l in impl:
